@@ -179,6 +179,12 @@ func (x *Exec) callFn(st *State, fn *ssa.Function, bind []Val, args []Val, pos t
 			return x.quantifier(st, fn.Name(), args)
 		case "sep":
 			return x.sepIntrinsic(st, args)
+		case "sameSlice":
+			a, b := args[0], args[1]
+			if a.If == nil || b.If == nil || len(a.If.V.C) != 4 || len(b.If.V.C) != 4 {
+				x.fail("sameSlice: arguments must be slices")
+			}
+			return Val{C: []*Term{And(Eq(a.If.V.C[0], b.If.V.C[0]), Eq(a.If.V.C[1], b.If.V.C[1]), Eq(a.If.V.C[2], b.If.V.C[2]), Eq(a.If.V.C[3], b.If.V.C[3]))}}
 		case "inRange":
 		}
 	}
@@ -220,9 +226,14 @@ func (x *Exec) inline(st *State, fn *ssa.Function, bind []Val, args []Val, pos t
 		ps = append(ps, predState{nil, r.st})
 	}
 	m := x.mergeStates(ps)
+	rgs := make([]*Term, len(rets))
+	for k, r := range rets {
+		rgs[k] = r.st.G
+	}
+	_, rrel := stripCommon(rgs)
 	v := rets[len(rets)-1].val
 	for k := len(rets) - 2; k >= 0; k-- {
-		v = mergeVals(rets[k].st.G, rets[k].val, v)
+		v = mergeVals(rrel[k], rets[k].val, v)
 	}
 	*st = *m.clone()
 	return v
@@ -292,7 +303,50 @@ func regionOfTyped(t types.Type, v Val) *Region {
 	return nil
 }
 
+func containsArray(t types.Type) bool {
+	switch u := t.Underlying().(type) {
+	case *types.Array:
+		return true
+	case *types.Struct:
+		for i := 0; i < u.NumFields(); i++ {
+			if containsArray(u.Field(i).Type()) {
+				return true
+			}
+		}
+	}
+	return false
+}
+
 func (x *Exec) havocRegion(st *State, r Region, name string) {
+	if r.Const > 0 && r.ElemT != nil && containsArray(r.ElemT) {
+		// objects with embedded arrays are read at symbolic offsets: havoc them as a fresh inner array
+		// (plus a frame axiom) instead of a chain of stores, and name the cells for models
+		var paths []string
+		cellPaths(r.ElemT, "", &paths)
+		arrs := map[*Sort]*Term{}
+		for _, s := range r.Sorts {
+			if _, ok := arrs[s]; ok {
+				continue
+			}
+			h := x.heapOf(st, s)
+			inner := Select(h, r.Blk)
+			ninner := Fresh(name+"!arr", ArrS(BV64, s))
+			o := Fresh("o", BV64)
+			in := And(ULE(r.Off, o), ULT(o, BVAdd(r.Off, r.N)))
+			ax := ForallPat([]*Term{o}, Implies(Not(in), Eq(Select(ninner, o), Select(inner, o))), []*Term{Select(ninner, o)})
+			x.assume(True(), ax)
+			st.Heap[s] = Store(h, r.Blk, ninner)
+			arrs[s] = ninner
+		}
+		for k := 0; k < r.Const; k++ {
+			p := ""
+			if k < len(paths) {
+				p = paths[k]
+			}
+			x.assume(True(), Eq(Fresh(name+p, r.Sorts[k]), Select(arrs[r.Sorts[k]], BVAdd(r.Off, BV(int64(k), 64)))))
+		}
+		return
+	}
 	if r.Const > 0 {
 		var paths []string
 		cellPaths(r.ElemT, "", &paths)
@@ -526,6 +580,10 @@ func (x *Exec) genOwner(g *GenFunc) *FuncInfo {
 		for _, h := range fi.LoopDec {
 			x.genOwners[h] = fi
 		}
+		reg(fi.Split)
+		for _, gs := range fi.LoopSplit {
+			reg(gs)
+		}
 	}
 	return x.genOwners[g]
 }
@@ -715,6 +773,9 @@ func (x *Exec) loopHead(fr *Frame, ld *loopData, st *State) {
 		t := x.evalGen(g, st, x.genArgs(g, x.entryArgs, nil, x.olds, fr, st))
 		x.assume(st.G, t.C[0])
 	}
+	for _, g := range x.Top.LoopSplit[ld.ord] {
+		x.splits = append(x.splits, x.evalGen(g, st, x.genArgs(g, x.entryArgs, nil, x.olds, fr, st)).C[0])
+	}
 	if g := x.Top.LoopDec[ld.ord]; g != nil {
 		ld.dec0 = x.evalGen(g, st, x.genArgs(g, x.entryArgs, nil, x.olds, fr, st)).C[0]
 	} else {
@@ -823,6 +884,12 @@ func (x *Exec) verifyFunc() (err error) {
 			if isByteRegion(preg[a]) && isByteRegion(preg[b]) {
 				continue
 			}
+			if isByteRegion(preg[a]) != isByteRegion(preg[b]) {
+				// a byte buffer never shares a block with a parser object (no unsafe in the package)
+				declareDistinct(preg[a].Blk, preg[b].Blk)
+				x.assume(True(), Neq(preg[a].Blk, preg[b].Blk))
+				continue
+			}
 			x.assume(True(), regionsDisjoint(preg[a], preg[b]))
 		}
 	}
@@ -837,6 +904,9 @@ func (x *Exec) verifyFunc() (err error) {
 	}
 	x.cover("requires/cover", st)
 	x.olds = x.snapshotOlds(fi, st, args)
+	for _, g := range fi.Split {
+		x.splits = append(x.splits, x.evalGen(g, st, x.genArgs(g, args, nil, nil, nil, st)).C[0])
+	}
 	// modifies regions
 	for _, g := range fi.Mod {
 		v := x.evalGen(g, st, x.genArgs(g, args, nil, nil, nil, st))
